@@ -8,6 +8,7 @@ import Jence.Model.Budget
 import Jence.Spec.Rules
 import Jence.Spec.Oracle
 import Jence.Lemmas.History
+import Jence.Lemmas.NVal
 open Jence
 
 def parseHex? (s : String) : Option UInt64 :=
@@ -176,6 +177,14 @@ def cmdWf (rest : String) : List String :=
           | none => acc.push "!check"
     (go (words (parts.getD 1 "")) g #[line g]).toList
 
+/-- `oracle nval <position> ; <depth>`: the value function of the theorems of C19 (`nVal`, plain minimax over the engine's
+    own generate / make / evaluate, no window and no cut-off) at the root -/
+def cmdNval (rest : String) : List String :=
+  let parts := semis rest
+  match parsePosition (parts.headD "") RepTable.new, (parts.getD 1 "").trimAscii.toString.toNat? with
+  | .ok (g, rep), some d => [toString (nVal chessRules rep.pre negaFuel g d 0)]
+  | _, _ => ["!none"]
+
 def cmdFen (rest : String) : List String :=
   match parseFen rest with
   | .none => ["!none"] | .panic => ["!panic"] | .ok g => [dumpGame g]
@@ -309,6 +318,7 @@ def handle (line : String) (tt : TT) : List String × TT :=
     (match words rest with
      | "attackall" :: s :: r => cmdAttackAll ((parseNat? s).getD 1).toUInt64 ((r.head?.bind parseNat?).getD 1) true
      | "wf" :: _ => cmdWf ((rest.drop 2).trimAscii.toString)
+     | "nval" :: _ => cmdNval ((rest.drop 4).trimAscii.toString)
      | _ => Spec.oracle rest, tt)
   | _ => (["!unknown"], tt)
 
